@@ -159,3 +159,9 @@ add('SUBSLICE', Rule('X-SUBSLICE', '&$v:p[$a:e..($b:e)]', 'subslice(&$v, $a, $b)
 
 # X-SLICEPREFIX: `&W.slice()[..n]`
 add('SLICEPREFIX', Rule('X-SLICEPREFIX', '&$w:i.slice()[..$n:e]', 'slice_prefix($w.slice(), $n)'))
+
+# X-EXTEND2: `v.extend([a, b])` -> two pushes (array IntoIterator is outside vstd)
+add('EXTEND2', Rule('X-EXTEND2', '$t:i.extend([$a:e, $b:e $_:c]);', '$t.push($a); $t.push($b);', stmt_start=True))
+
+# X-CONSTSTR: inside verus! a const is lowered to a function, which needs the elided lifetime spelled out
+add('CONSTSTR', Rule('X-CONSTSTR', 'const $n:i: &str', "const $n: &'static str"))
